@@ -28,6 +28,7 @@ func init() {
 			"C29.R5 pairing: the annotation reference removed from a page is the reference of the widget whose /P named the page",
 			"C29.R7 dominance: on the no-signatures edge a nil-error exit is behind conf.Cmd != REMOVESIGNATURES",
 			"C29.R8 shape: the widget reference is removed from a page's /Annots at every position (the loop over the array is not left at the first match)",
+			"C29.R10 MPT: a signature widget without the optional /P entry is still taken off the pages (no silent return)",
 			"C29.R9 TABLE: AllowRemoveSignatures names MERGEAPPEND, MERGECREATE, MERGECREATEZIP and OPTIMIZE",
 			"C29.R3 coverage: RemoveAllSignatures deletes Perms and DSS on every path, SigFlags/AcroForm when fields were dropped",
 		},
@@ -80,6 +81,8 @@ func runC29(c *Ctx) {
 	checkAnnotRemovalComplete(c)
 	r.MinInst["C29.R9"] = 1
 	checkRemoveSignaturesModes(c)
+	r.MinInst["C29.R10"] = 2
+	checkWidgetWithoutPNotSkipped(c)
 
 	// ---------- R1
 	if fn := p.Func("pkg/api.ReadAndValidate"); fn == nil {
@@ -948,5 +951,110 @@ func checkRemoveSignaturesModes(c *Ctx) {
 		r.OK("C29.R9", fid, "modes of the option", p.Pos(fn.Pos()), "compares with "+strings.Join(want, ", "), true)
 	} else {
 		r.Bad("C29.R9", fid, "modes of the option", p.Pos(fn.Pos()), "the predicate no longer names "+strings.Join(miss, ", ")+": with the RemoveSignatures option that command skips the removal without a word and writes the signature fields, widgets and values of its signed inputs")
+	}
+}
+
+// ---------------- C29.R10 (round 4: a side observation of seed C29-G's agent, reproduced and repaired) ----------------
+
+// checkWidgetWithoutPNotSkipped: the /P entry of a widget annotation is optional. In model.removeSigAnnot the edge on
+// which the widget has no /P (IndirectRefEntry("P") == nil) must not lead to a return before something was called that
+// takes the widget off a page (removePageAnnotationForSig, directly or through a helper): otherwise the removal reports
+// success and the widget — with its field and signature value — stays on the page.
+func checkWidgetWithoutPNotSkipped(c *Ctx) {
+	p, r := c.P, c.R
+	cg := c.CG()
+	const fid = "pkg/pdfcpu/model.removeSigAnnot"
+	fn := p.Func(fid)
+	if fn == nil {
+		r.Bad("C29.R10", fid, "anchor", "", "UNRESOLVED-ANCHOR")
+		return
+	}
+	target := p.Func("pkg/pdfcpu/model.removePageAnnotationForSig")
+	reaches := func(f *ssa.Function) bool {
+		if f == nil {
+			return false
+		}
+		if f == target {
+			return true
+		}
+		for _, o := range cg.Out[f] {
+			if o == target {
+				return true
+			}
+		}
+		return false
+	}
+	removes := func(b *ssa.BasicBlock) bool {
+		for _, in := range b.Instrs {
+			if call, ok := in.(*ssa.Call); ok {
+				if f := staticCallee(call); f != nil && reaches(unwrapSynthetic(f)) {
+					return true
+				}
+			}
+		}
+		return false
+	}
+	n := 0
+	eachInstr(fn, func(_ *ssa.BasicBlock, _ int, i ssa.Instruction) {
+		bo, ok := i.(*ssa.BinOp)
+		if !ok || (bo.Op != token.EQL && bo.Op != token.NEQ) {
+			return
+		}
+		var other ssa.Value
+		switch {
+		case isNilConst(bo.Y):
+			other = bo.X
+		case isNilConst(bo.X):
+			other = bo.Y
+		default:
+			return
+		}
+		call, ok := other.(*ssa.Call)
+		if !ok {
+			return
+		}
+		if f := staticCallee(call); f == nil || f.Name() != "IndirectRefEntry" || len(call.Call.Args) != 2 {
+			return
+		}
+		if k, ok := constString(call.Call.Args[1]); !ok || k != "P" {
+			return
+		}
+		for _, e := range condEdges(bo, bo.Op == token.EQL) {
+			n++
+			construct := fmt.Sprintf("widget without /P#%d", n)
+			start := e.From.Succs[e.Succ]
+			skipped := false
+			seen := map[*ssa.BasicBlock]bool{start: true}
+			work := []*ssa.BasicBlock{start}
+			for len(work) > 0 && !skipped {
+				b := work[len(work)-1]
+				work = work[:len(work)-1]
+				if removes(b) {
+					continue
+				}
+				if len(b.Instrs) > 0 {
+					if ret, ok := b.Instrs[len(b.Instrs)-1].(*ssa.Return); ok {
+						if k, ok := returnErrKind(ret); !ok || k != errNonNil {
+							skipped = true
+						}
+						continue
+					}
+				}
+				for _, s := range b.Succs {
+					if !seen[s] {
+						seen[s] = true
+						work = append(work, s)
+					}
+				}
+			}
+			if skipped {
+				r.Bad("C29.R10", fid, construct, p.Pos(bo.Pos()), "a signature widget that has no /P entry (the entry is optional) is skipped: the function returns without taking the widget off any page, the removal reports success, and the widget, its field and the signature value stay in the written document")
+			} else {
+				r.OK("C29.R10", fid, construct, p.Pos(bo.Pos()), "without /P the widget is still taken off the pages before the function returns", true)
+			}
+		}
+	})
+	if n == 0 {
+		r.Bad("C29.R10", fid, "widget without /P", p.Pos(fn.Pos()), "UNDECIDED: no nil test of the widget's /P entry")
 	}
 }
